@@ -49,6 +49,16 @@ def run_puppet(cfg, script, drain=False):
     cover = Cover().bind(pu.E.name)
     pu.log.listeners.append(cover)
     written = {}       # sid -> [bytes, fin, reset]
+    gone = set()       # streams the endpoint may have discarded (judged from the frames on the wire, not from its state)
+
+    def sweep():
+        """after an action (every injected packet and every transmit runs the write loop): a stream whose receive
+        half is complete and whose send half may be finished (receive-only stream; FIN / RESET_STREAM written or
+        STOP_SENDING received on a bidirectional one) may have been discarded"""
+        ro = pu.recv_oracle
+        for sid in set(ro.touched) | set(written):
+            if ro.recv_done(sid) and (bool(sid & 2) or (sid in written and (written[sid][1] or written[sid][2]))):
+                gone.add(sid)
     accepted = []      # (action, expected codes, closed code after)
     recv_problems = []
     bounds_problems = []
@@ -120,7 +130,7 @@ def run_puppet(cfg, script, drain=False):
                 ro = pu.recv_oracle
                 payload = b""
                 exp = set()
-                unspecified = False
+                unspecified = may_ignore = False
                 for sub in (act[1] if k == "pmulti" else [act]):
                     sid = sub[1]
                     if sub[0] == "pstream":
@@ -136,10 +146,11 @@ def run_puppet(cfg, script, drain=False):
                         payload += F.enc_max_stream_data(sid, sub[2])
                     if exp or unspecified:
                         continue
-                    # The oracle decides by itself whether the receive half of the stream is complete
-                    # (FIN reached or RESET_STREAM accepted): only then may the endpoint have discarded the
-                    # stream and ignore the frame.  Until then every limit stays in force.
-                    done = ro.recv_done(sid)
+                    # The oracle decides by itself whether the endpoint may have DISCARDED the stream (`gone`:
+                    # receive half complete by FIN / RESET_STREAM, send half possibly finished, and a write loop
+                    # ran since): only then may the frame be ignored.  Until then every limit and the final-size
+                    # rule stay in force, also on a stream whose receive half is complete.
+                    done = sid in gone
                     e_opened = sid in written
                     if sub[0] == "pstream":
                         x = ro.expect("stream", sid, off, n, fin, e_opened=e_opened)
@@ -148,8 +159,10 @@ def run_puppet(cfg, script, drain=False):
                     else:
                         x = ro.expect_id({"psdb": "sdb", "pss": "stop", "pmd": "msd"}[sub[0]], sid, e_opened=e_opened)
                     if done:
-                        if x:
-                            unspecified = True     # ignored (stream discarded) or judged: both are fine
+                        if x and k == "pmulti":
+                            unspecified = True     # ignored or judged, and the later frames depend on which
+                        elif x:
+                            exp, may_ignore = x, True      # ignored (stream discarded) or judged with a matching code
                         continue
                     exp = x
                     if sub[0] == "pss" and not x and sid in written:
@@ -157,7 +170,7 @@ def run_puppet(cfg, script, drain=False):
                 pu.inject(payload)
                 got = pu.closed
                 accepted.append((act, sorted(exp), got))
-                if unspecified:
+                if unspecified or (may_ignore and got is None):
                     pass
                 elif exp and got not in exp:
                     recv_problems.append(f"{act}: beyond advertised limits / not allowed (matching codes {sorted(exp)}) but connection close code is {got}")
@@ -201,6 +214,7 @@ def run_puppet(cfg, script, drain=False):
                         break
             else:
                 raise ValueError(act)
+            sweep()
             # measured bounds (C07): reassembly bytes against advertised limits
             ro = pu.recv_oracle
             tot = 0
@@ -329,5 +343,10 @@ def diff_cases(ctx, name, cases, impl_outs):
         if m[0] >= 0:
             ci, oi, il, ml = m
             ctx.disagreement(name, cases[ci][: oi + 1], ml, il, oi)
+    # the inputs of the disagreeing cases: judged first by the failing-input search
+    inputs = getattr(ctx, "flow_inputs", {})
+    for m in mism:
+        if m[0] >= 0 and id(cases[m[0]]) in inputs:
+            ctx.__dict__.setdefault("disagreeing_inputs", []).append(inputs[id(cases[m[0]])])
     ctx.cov["traces_validated_against_impl"] += len(cases)
     return len(mism)
